@@ -29,7 +29,8 @@ struct Op
     int code = 0;
     int kind = 0;  // 0 option, 1 multi, 2 toggle
     int name = 0;  // index into names
-    int group = 0; // 0 default (via parser), 1 default (via group()), 2 "A", 3 "B"
+    int group = 0; // 0 default (via parser), 1 default (via group()), 2 "A", 3 "B",
+                   // 4/5/6: default/"A"/"B" through a group reference obtained earlier and held
     int arg = 0;   // letter index / env index / metavar index / keep_old
     template <class A>
     void io(A& a)
@@ -53,10 +54,10 @@ struct Case
 };
 
 static const char* NAMES[] = { "a", "b", "c" };
-static const char* LETTERS[] = { "x", "y", "", "xy", "z" };
+static const char* LETTERS[] = { "x", "y", "", "xy", "z", "\xe4" };
 static const char* ENVS[] = { "NITRO_VERIF_D1", "NITRO_VERIF_D2" };
 static const char* METAVARS[] = { "FILE", "", "N" };
-static const char* GROUPS[] = { "__default__", "__default__", "A", "B" };
+static const char* GROUPS[] = { "__default__", "__default__", "A", "B", "__default__", "A", "B" };
 static const char* KINDS[] = { "option", "multi_option", "toggle" };
 
 const char* property_ids()
@@ -72,11 +73,11 @@ std::string describe(const Case& c)
         switch (op.code)
         {
         case DECL:
-            o << (op.group == 0 ? "parser" : std::string("group(") + GROUPS[op.group] + ")") << "."
+            o << (op.group % 7 == 0 ? "parser" : std::string(op.group % 7 >= 4 ? "held-group(" : "group(") + GROUPS[op.group % 7] + ")") << "."
               << KINDS[op.kind % 3] << "(" << NAMES[op.name % 3] << ") ";
             break;
         case SHORT:
-            o << NAMES[op.name % 3] << ".short_name(\"" << LETTERS[op.arg % 5] << "\") ";
+            o << NAMES[op.name % 3] << ".short_name(\"" << LETTERS[op.arg % 6] << "\") ";
             break;
         case ENV:
             o << NAMES[op.name % 3] << ".env(" << ENVS[op.arg % 2] << ") ";
@@ -125,10 +126,10 @@ Case generate(vf::Src& src, const std::string& mode)
             op.code = static_cast<int>(src.weighted({ 40, 22, 5, 4, 4, 7, 18 }));
             op.kind = src.irange(0, 2);
             op.name = src.irange(0, 2);
-            op.group = src.irange(0, 3);
-            op.arg = src.irange(0, 4);
-            if (op.code == SHORT) // favour collisions on the letters x and y
-                op.arg = static_cast<int>(src.weighted({ 40, 30, 8, 8, 14 }));
+            op.group = src.coin(75) ? src.irange(0, 3) : src.irange(4, 6);
+            op.arg = src.irange(0, 5);
+            if (op.code == SHORT) // favour collisions on the letters x and y (and a high-bit byte)
+                op.arg = static_cast<int>(src.weighted({ 34, 26, 8, 8, 12, 12 }));
         }
         c.ops.push_back(op);
     }
@@ -153,6 +154,7 @@ std::string check(const Case& c, vf::Ctx& ctx)
     auto p = std::make_unique<parser>("prog", "about");
     std::vector<std::unique_ptr<parser>> graveyard;
     std::map<std::string, Entry> model;
+    nitro::options::group* held[3] = { nullptr, nullptr, nullptr }; // default, A, B
     bool moved = false, decl_after_move = false, collision = false;
     std::size_t step = 0;
 
@@ -161,7 +163,10 @@ std::string check(const Case& c, vf::Ctx& ctx)
     for (const Op& op : c.ops)
     {
         std::string name = NAMES[op.name % 3];
-        int g = op.group % 4;
+        int g = op.group % 7;
+        const bool via_held = g >= 4;
+        if (via_held)
+            g = g == 4 ? 1 : g - 3; // 4 -> default, 5 -> A, 6 -> B
         int gnorm = g <= 1 ? 0 : g;
         bool threw_parser_error = false;
         std::string other_exception;
@@ -184,7 +189,14 @@ std::string check(const Case& c, vf::Ctx& ctx)
                 }
                 else
                 {
-                    auto& grp = g == 1 ? p->group() : p->group(GROUPS[g], "");
+                    // either ask the current parser for the group, or use a reference that was
+                    // obtained at an earlier point of the history (it stays valid across moves)
+                    nitro::options::group*& slot_ref = held[g == 1 ? 0 : g - 1];
+                    if (!via_held || slot_ref == nullptr)
+                        slot_ref = g == 1 ? &p->group() : &p->group(GROUPS[g], "");
+                    else
+                        ctx.tag("decl:through-held-group-reference");
+                    auto& grp = *slot_ref;
                     if (kind == 0)
                         addr = &grp.option(name, "d");
                     else if (kind == 1)
@@ -244,7 +256,7 @@ std::string check(const Case& c, vf::Ctx& ctx)
             if (it == model.end())
                 break; // nothing declared under that name yet
             Entry& e = it->second;
-            std::string letter = LETTERS[op.arg % 5];
+            std::string letter = LETTERS[op.arg % 6];
             try
             {
                 auto apply = [&](auto* o) {
